@@ -8,3 +8,10 @@ pub open spec fn dir_parsed(d: Seq<u8>, start: int, files: Seq<ZipFileData>, aof
     forall|j: int| 0 <= j < files.len() ==> cdh_at(d, #[trigger] cd_pos(d, start, j))
         && parsed_matches(files[j], dec_cdh(d, cd_pos(d, start, j)), cd_pos(d, start, j) as u64, aoff)
 }
+// the directory as new_append re-hydrates it: every record parsed per APPNOTE, in order; the extra field is kept without
+// its ZIP64 records (their values are in the entry and the record is regenerated when the directory is written again)
+pub open spec fn dir_parsed_append(d: Seq<u8>, start: int, files: Seq<ZipFileData>, aoff: u64) -> bool {
+    forall|j: int| 0 <= j < files.len() ==> cdh_at(d, #[trigger] cd_pos(d, start, j))
+        && parsed_matches_but_extra(files[j], dec_cdh(d, cd_pos(d, start, j)), cd_pos(d, start, j) as u64, aoff)
+        && files[j].extra_field@ == strip_z64(dec_cdh(d, cd_pos(d, start, j)).extra_rest, 0)
+}
